@@ -22,7 +22,8 @@ CLAIM = {
             "notify_listeners_add on ListenSlot.watches/seen; swept-height bookkeeping is mirrored; (R14.7) in both "
             "directions the watch set inserts one list of the listener's (adds, removes) result before it drops the "
             "other (roles: connect inserts adds/drops removes/remembers removes as seen, disconnect the reverse), so "
-            "an outpoint created and spent inside one block nets out. Does not decide "
+            "an outpoint created and spent inside one block nets out; (R14.8) both streamed block-end callbacks take "
+            "the per-block decode state on every exit. Does not decide "
             "equality with a fresh replay over all block histories nor general panic-freedom.",
     "note": "rustc MIR; symmetry is compared per match arm over field writes, mutator calls and Vec::push sites "
             "including closures called from the arm",
@@ -50,6 +51,7 @@ def run(ctx):
     r145(ctx)
     r146(ctx)
     r147(ctx)
+    r148(ctx)
 
 
 def arms(ctx, body, variants):
@@ -430,3 +432,32 @@ def r147(ctx):
         got = ops["seen"][sk]
         ctx.ob("R14.7", len(got) >= 1 and all(s_ == sidx for _, _, s_ in got) and not ops["seen"]["remove" if sk == "insert" else "insert"],
                f"{b.name}/seen", f"{fn}: seen-set updates {ops['seen']}", where=f"{b.file}:{b.line}", sample=f"seen.{sk}(.{sidx})")
+
+
+def r148(ctx):
+    ctx.rule("R14.8", "the per-block decode state (a snapshot of the monitor state made when a streamed block starts) is "
+                      "consumed at the end of that block on every exit, so it can never be reused for a later block")
+    p = ctx.prog
+    CM = LS + "monitor::ChainMonitor"
+    n = 0
+    for b in sorted(p.bodies.values(), key=lambda x: x.name):
+        if b.d.krate != "lightning_signer" or not b.name.startswith(f"<{CM} as ") or not b.name.endswith("_streamed_block_end"):
+            continue
+        n += 1
+        fv = fnview(ctx, b, policy=False)
+        takes = []
+        for bi, c in b.calls():
+            nm = c.callee.name if c.callee else ""
+            if nm.endswith("Option::<T>::take") and c.args:
+                e = fv.expr(c.args[0])
+                if any(x[0] == "field" and x[3] == "decode_state" for x in subexprs(e)):
+                    takes.append(bi)
+        ctx.ob("R14.8", bool(takes), f"{b.name}/takes-decode-state", f"`{b.name}` no longer takes the decode state", where=f"{b.file}:{b.line}")
+        rets = [bi for bi in fv.live_blocks() if b.term(bi).kind == "ret"]
+        live = fv.reach(0, cut_nodes=set(takes))
+        bad = [bi for bi in rets if bi in live]
+        ctx.ob("R14.8", bool(takes) and not bad, f"{b.name}/always-consumed",
+               f"`{b.name}` can return (line {b.term(bad[0]).line if bad else 0}) without having taken `decode_state`: the stale snapshot "
+               f"is matched against the transactions of a later streamed block and the result depends on history, not on the block",
+               where=f"{b.file}:{b.line}", sample="every return passes decode_state.take()")
+    ctx.floor("R14.8", "streamed block-end callbacks of ChainMonitor", n, 2)
